@@ -114,6 +114,22 @@ CHECKS = {
         "Thread layer: OS-owned schedule (randomised stress, oracle sound under any interleaving; timing overruns are inconclusive).",
         "DESIGN.md section 3 C12",
     ),
+    "C15": (
+        "exploration",
+        "model-based property testing: generated request streams x chunk arrival times x handler shapes (as data) on a virtual loop; handler-side log compared with a pure-Python reference model",
+        "AsyncStreamServer + build_lowlevel_stream_server_handler over an in-memory listener and the full AsyncTCPNetworkServer through an in-memory backend: a generic handler logs every value/exception/restart/finalisation with virtual times; "
+        "a reference model replays the frame list and arrival times against the handler shape and predicts the log (requests once and in order across generator restarts, parse error at its position, TimeoutError iff no complete request in time, exactly-once finalisation, connection closed).",
+        "Deadline ties excluded by construction (dyadic timeouts vs integer arrivals); yielded timeout 0 judged only when unambiguous.",
+        "DESIGN.md section 3 C15",
+    ),
+    "C16": (
+        "exploration",
+        "model-based property testing: generated datagram arrival scripts x per-address handler scripts on a virtual loop; per-address log and timing compared with a reference model",
+        "AsyncDatagramServer.serve over an in-memory datagram listener and the full AsyncUDPNetworkServer: per address the handler-side sequence equals the arrival sequence (minus documented discards), at most one active generator per address, every queued datagram handled, "
+        "and each address' completion times are independent of other addresses' suspensions (the per-address model ignores the others).",
+        "Handler exceptions before the first yield and timeout 0 are not generated (statement silent).",
+        "DESIGN.md section 3 C16",
+    ),
 }
 
 PENDING = {}
